@@ -57,13 +57,17 @@ def valid_sizes():
               fld("Al", ["//govalid:alpha", "//govalid:minlength=1"], s), fld("Nu", ["//govalid:numeric", "//govalid:maxlength=5000"], s),
               fld("I4", ["//govalid:ipv4"], s), fld("I6", ["//govalid:ipv6"], s),
               fld("Sl", ["//govalid:minitems=1", "//govalid:maxitems=100000"], SLICE), fld("Mp", ["//govalid:minitems=1"], MAP),
-              fld("Ch", ["//govalid:maxitems=5000", "//govalid:required"], CHAN)]
+              fld("Ch", ["//govalid:maxitems=5000", "//govalid:required"], CHAN),
+              fld("E9", ["//govalid:enum=a,b,c,d,e,f,g,h,i"], s), fld("E12", ["//govalid:enum=red,green,blue,cyan,magenta,yellow,black,white,grey,pink,teal,navy"], s),
+              fld("E2", ["//govalid:enum=on,off"], s), fld("Ui", ["//govalid:uuid", "//govalid:length=36"], s)]
     cases = []
     for k in (1, 30, 60):
         cases.append(case([
             set_str("Em", b"a" * k + b"@" + b"b" * k + b".cd"), set_str("Ur", b"https://" + b"h" * k * 50), set_str("Uu", b"550e8400-e29b-41d4-a716-446655440000"),
             set_str("Al", b"x" * k * 50), set_str("Nu", b"7" * k * 50), set_str("I4", b"10.%d.3.4" % k), set_str("I6", b"2001:db8::%x" % k),
-            set_coll("Sl", False, k * 100), set_coll("Mp", False, k), set_coll("Ch", False, k * 10)]))
+            set_coll("Sl", False, k * 100), set_coll("Mp", False, k), set_coll("Ch", False, k * 10),
+            set_str("E9", b"i" if k == 1 else b"a"), set_str("E12", b"navy" if k == 30 else b"red"), set_str("E2", b"off"),
+            set_str("Ui", [b"550E8400-E29B-41D4-A716-446655440000", b"550e8400-E29b-41D4-a716-44665544AbCd", b"FFFFFFFF-FFFF-FFFF-FFFF-FFFFFFFFFFFF"][k % 3])]))
     return [scenario("c19sizes", [struct("T", fields, cases)])]
 
 
